@@ -98,6 +98,11 @@ def ev(e):
         if isinstance(v, bool):
             raise Bad()
         return v * -1
+    if t == 'pos':
+        v = ev(e[1])
+        if isinstance(v, bool):
+            raise Bad()
+        return v
     if t == 'call':
         args = [ev(a) for a in e[2]]
         if e[1] in USER:
@@ -195,7 +200,12 @@ def gen_num(rng, depth):
         n = 2 if f == 'avg' else 1
         return ['call', f, [gen_num(rng, depth - 2) for _ in range(n)]]
     if r < 0.38:
-        return ['neg', gen_num(rng, depth - 1)]
+        inner = gen_num(rng, depth - 1)
+        if rng.random() < 0.25:       # runs of signs: - - x, - + x, - - - x
+            inner = [rng.choice(['neg', 'neg', 'pos']), inner]
+            if rng.random() < 0.3:
+                inner = ['neg', inner]
+        return ['neg', inner]
     op = rng.choice(ARITH)
     return ['bin', op, gen_num(rng, depth - 1), gen_num(rng, depth - 1)]
 
@@ -283,7 +293,7 @@ def op_pairs(e, out, parent=None):
             out.add((parent, e[1]))
         op_pairs(e[2], out, e[1])
         op_pairs(e[3], out, e[1])
-    elif e[0] in ('neg', 'paren'):
+    elif e[0] in ('neg', 'pos', 'paren'):
         op_pairs(e[1], out, parent)
     elif e[0] == 'call':
         for a in e[2]:
